@@ -24,7 +24,7 @@ CHECKS = {
    "DESIGN.md §3 C09, Appendix F", "harness"),
  "C15": ("exploration",
    "property-based testing (proptest): generated entries encoded by an independent BER writer with generated length forms, SearchEntry::construct output compared with a reference classification",
-   "Entries with distinct attribute descriptions and values drawn from valid/empty/invalid UTF-8 in every order are compared against the stated classification rule (exactly one map, text iff all values UTF-8 in order, else binary multiset).",
+   "Entries with distinct attribute descriptions (with and without options such as ;binary) and values drawn from valid/empty/invalid UTF-8 in every order are compared against the stated classification rule (exactly one map, text iff all values UTF-8 in order, else binary multiset).",
    "Trusted base: harness BER writer and entry model. DN and attribute descriptions are UTF-8 as in every well-formed entry.",
    "DESIGN.md §3 C15", "harness"),
  "C19": ("exploration",
@@ -44,7 +44,7 @@ CHECKS = {
    "DESIGN.md §3 C01, §2.2", "harness"),
  "C02": ("exploration",
    "property-based testing (proptest) of generated operation histories with per-operation modifiers; the client->server byte log is decoded by an independent strict RFC 4511 decoder and compared with a request model built from the call arguments",
-   "Whole Ldap surface with arbitrary arguments (incl. empty/large/binary), modifiers before every kind of op including locally failing ones; exactly one well-formed message per issued op with the right fields, id and controls; leaked timeouts exposed by delayed answers on the virtual clock.",
+   "Whole Ldap surface with arbitrary arguments (incl. empty/large/binary), modifiers before every kind of op including locally failing ones, operations on clones taken while modifiers are pending on the handle; exactly one well-formed message per issued op with the right fields, id and controls; leaked timeouts exposed by delayed answers on the virtual clock.",
    "Trusted base: harness strict request decoder (src/model.rs), SIM. Limits/ids within 0..maxInt.",
    "DESIGN.md §3 C02", "harness"),
  "C03": ("exploration",
@@ -54,7 +54,7 @@ CHECKS = {
    "DESIGN.md §3 C03", "harness"),
  "C06": ("exploration",
    "property-based testing (proptest) with exhaustive sub-spaces: generated message streams fed to the frame decoder under generated partitions, every 2-chunk split and every prefix of short streams; end-to-end lane through the scripted transport with generated read sizes",
-   "Delivered (id, op, controls) sequence must equal the model for every partition; no message before its last byte; after each delivery exactly the following bytes remain. Exhaustive over all split points for streams <= 600 bytes; a 'huge' lane places a 1-16 MiB message inside a stream with followers in the same read.",
+   "Delivered (id, op, controls) sequence must equal the model for every partition; no message before its last byte; after each delivery exactly the following bytes remain. Exhaustive over all split points for streams <= 600 bytes; a 'huge' lane places a 1-16 MiB message inside a stream with followers in the same read; the e2e lane also sends bursts of 1000-3000 minimal messages that sit in the grown read buffer at once.",
    "Trusted base: harness BER writer; Framed's append-then-decode contract emulated in the decoder lane, real Framed in the e2e lane.",
    "DESIGN.md §3 C06", "harness"),
  "C10": ("exploration",
@@ -64,7 +64,7 @@ CHECKS = {
    "DESIGN.md §3 C10, Appendix B", "harness"),
  "C13": ("exploration",
    "property-based testing (proptest) of generated operation histories on the simulated connection; invariant (empty id table, empty routing maps) checked at every virtual-clock quiescent point via the id-table and gauge hooks",
-   "Histories up to 42 steps mixing every operation kind, timeouts with late replies, replies that tie with the deadline (reply and scrub request reach the driver in the same turn; seeded select! order), timeouts while the request is still queued behind a full socket send buffer (answered later or never), direct/adapted/paged searches read to the end or finished early (also while still open at the driver), abandons of finished/timed-out/in-flight/never-issued ids and of mid-stream searches (then finished or dropped), foreign-type responses under a live search id, search() timeouts, unsolicited responses and rewinds of the id counter; after every step nothing may remain reserved or routed.",
+   "Histories up to 42 steps mixing every operation kind, timeouts with late replies, replies that tie with the deadline (reply and scrub request reach the driver in the same turn; seeded select! order), timeouts while the request is still queued behind a full socket send buffer (answered later or never), direct/adapted/paged searches read to the end or finished early (also while still open at the driver), abandons of finished/timed-out/in-flight/never-issued ids and of mid-stream searches (then finished or dropped), foreign-type responses under a live search id, search() timeouts, operations that fail locally before anything is sent (adapter init, bad filter, value-less add), two operations timing out in the same instant, a paged search finished early while the id of its first page is re-used by an outstanding operation, unsolicited responses and rewinds of the id counter; after every step nothing may remain reserved or routed.",
    "Trusted base: hooks verif_msgmap/verif_gauges (read-only), SIM quiescence (paused clock).",
    "DESIGN.md §3 C13", "harness"),
  "C16": ("exploration",
@@ -74,7 +74,7 @@ CHECKS = {
    "DESIGN.md §3 C16", "harness"),
  "C04": ("fault_enumeration",
    "property-based scenario generation (proptest) + exhaustive fault injection: every connection-failure kind at every byte boundary of the scenario's request and response streams on the deterministic simulated connection, virtual-clock watchdog as hang detector",
-   "Per generated scenario (1-5 pending operations/streams, merge order, read/write segmentation) the response and request streams are fixed by a fault-free run; then EOF and reset after every byte, undecodable frames and unbind at every PDU boundary, write failure after every request byte and last-handle drop are injected and each run is judged (termination, delivered responses intact, all other pending work fails, later operations fail immediately, transport closed). A second lane does the same for searches that span several requests (PagedResults streams: fault after every response PDU, right behind a page result or after the follow-up request).",
+   "Per generated scenario (1-5 pending operations/streams, merge order, read/write segmentation) the response and request streams are fixed by a fault-free run; then EOF and reset after every byte, seven other I/O error kinds at and just behind every PDU boundary, undecodable frames and unbind at every PDU boundary, write failure and zero-length write after every request byte (requests up to 70 KB) and last-handle drop are injected and each run is judged (termination, delivered responses intact, all other pending work fails, later operations fail immediately, transport closed). A second lane does the same for searches that span several requests (PagedResults streams: fault after every response PDU, right behind a page result or after the follow-up request).",
    "Trusted base: SIM (scripted transport with fault injection, paused clock => the watchdog firing proves a future can never complete; a reader polling a finished transport >2000 times is parked and reported as livelock). Client-side events are injected at driver quiescence only.",
    "DESIGN.md §3 C04", "harness"),
  "C05": ("exploration",
@@ -84,7 +84,7 @@ CHECKS = {
    "DESIGN.md §3 C05", "harness"),
  "C12": ("exploration",
    "property-based testing (proptest) of generated timed histories on the paused virtual clock; exact-instant oracle (1 ms granularity), token tracing for late replies, id-table hooks for release/reuse",
-   "Timed and untimed single operations and direct/EntriesOnly/PagedResults searches (paged ones with generated page ends answered by follow-up requests), searches through search() and timed-out streams dropped without finish(), concurrent on clones or chained on ONE handle (so timed-out operations are followed by timed and untimed ones on the same handle), with scripted arrival instants before/after/never relative to the deadline; timeouts must fire at start+T (per next() call for searches, also on page 2+), other and later operations complete with their own tokens, late replies reach nobody, timed-out ids are released, handed out again and work for the operation that gets them.",
+   "Timed and untimed single operations and direct/EntriesOnly/PagedResults searches (paged ones with generated page ends answered by follow-up requests), searches through search() and timed-out streams dropped without finish(), concurrent on clones or chained on ONE handle (so timed-out operations are followed by timed and untimed ones on the same handle), with scripted arrival instants before/after/never relative to the deadline; timeouts must fire at start+T (per next() call for searches, also on page 2+), other and later operations complete with their own tokens, late replies reach nobody, timed-out ids are released, handed out again and work for the operation that gets them; practically infinite timeouts (up to Duration::MAX) still return the response. A second lane queues 0-89 requests behind a driver stuck in a socket write and demands that a timed operation still times out exactly at its deadline.",
    "Trusted base: tokio paused clock (time advances only at global idleness), SIM, hooks. No ties (|arrival-deadline| >= 2 ms).",
    "DESIGN.md §3 C12", "harness"),
  "C11": ("exploration",
@@ -94,17 +94,17 @@ CHECKS = {
    "DESIGN.md §3 C11, Appendix D", "harness"),
  "C17": ("fault_enumeration",
    "exhaustive enumeration of the establishment fault product (scheme x verification x server certificate x StartTLS reply x post-reply behaviour, 168 cells) with generated parameters per cell, against an adversarial TLS server on real loopback sockets that records every raw byte",
-   "Every adversarial establishment behaviour is enumerated (StartTLS replies: success, non-zero code with the server still ready to handshake, garbage, close, non-extended response, a foreign-id success ahead of the real refusal; plus a 28-code sweep); oracle: only the StartTLS request and TLS records travel in cleartext, Ok iff TLS was really established under the effective trust settings, operations after Ok travel inside TLS and never see forged cleartext responses; a client-side hang until the guard is a violation because the scripted server always acts immediately.",
+   "Every adversarial establishment behaviour is enumerated (StartTLS replies: success, non-zero code with the server still ready to handshake, garbage, close, non-extended response, a foreign-id success ahead of the real refusal; plus a 28-code sweep; the settings object is built in five ways: new()/default() base, two builder-call orders, a clone, the blocking API); oracle: only the StartTLS request and TLS records travel in cleartext, Ok iff TLS was really established under the effective trust settings, operations after Ok travel inside TLS and never see forged cleartext responses; a client-side hang until the guard is a violation because the scripted server always acts immediately.",
    "Trusted base: native-tls/OpenSSL acceptor, committed test PKI (/verif/tls), harness BER/request decoder. Real sockets and wall time; env-* problems (bind, 20 s guard) yield exit 2.",
    "DESIGN.md §3 C17", "harness"),
  "C18": ("exploration",
    "property-based testing (proptest) of generated URL x settings combinations through both the async and sync constructors against real loopback endpoints; a reference model of the documented dispatch predicts the outcome class and which endpoint must receive the connection",
-   "Schemes, host forms, ports (incl. default 389/636 listeners bound by the harness), percent-encoded socket paths, StartTLS, pre-opened streams of every kind, connection timeouts, silent servers and broken URLs; per-case listeners count accepts so a connection to the wrong endpoint is visible; panics are always violations.",
+   "Schemes, host forms, ports (incl. default 389/636 listeners bound by the harness), percent-encoded socket paths (also with ':' and a literal '%41' in the name), a host that does not resolve behind a pre-opened stream, StartTLS, pre-opened streams of every kind, connection timeouts, silent servers and broken URLs; per-case listeners count accepts so a connection to the wrong endpoint is visible; panics are always violations.",
    "Trusted base: dispatch model of DESIGN.md Appendix C, harness servers, test PKI. Real sockets/wall time: env-* problems are exit 2; undefined URLs only checked for panics.",
    "DESIGN.md §3 C18, Appendix C", "harness"),
  "C14": ("exploration",
    "property-based testing (proptest), differential: the same generated script is executed through LdapConn/EntryStream and through Ldap/SearchStream against the same scripted server logic over Unix sockets; transcripts (decoded by the independent RFC 4511 decoder) and all return values are compared",
-   "Scripts over the whole sync surface incl. all four constructors, the three modifiers, every operation, streams read to the end or stopped early, and server behaviours success / error code / silence with client timeout / disconnect; wire transcripts and results must be equal between the two APIs.",
+   "Scripts over the whole sync surface incl. all four constructors, the three modifiers, every operation, streams read to the end or stopped early, and server behaviours success / error code / silence with client timeout / a search dripping entries slower in total than the timeout but never per item / disconnect; wire transcripts and results must be equal between the two APIs.",
    "Trusted base: harness request decoder, blocking scripted server. Real time but never borderline (immediate answers, or silence with a 40 ms timeout in both runs); after a disconnect that the failing call itself observed only locally answered calls (is_closed, get_peer_certificate, last_id) are compared.",
    "DESIGN.md §3 C14", "harness"),
 }
